@@ -32,6 +32,10 @@ def _case_split(z3, smt2, timeout_ms):
         walk(f)
     if not sks:
         return None
+    ids = {s.get_id(): s for s in sks}
+    how = _ite_split(z3, rest, ids, timeout_ms)      # cheapest when it applies (cases are decided in milliseconds)
+    if how:
+        return how
     if not terms:
         return _eq_split(z3, rest, sks, timeout_ms)
 
@@ -77,7 +81,7 @@ def _eq_split(z3, fs, sks, timeout_ms):
             walk(f)
     use = [(ids[k], v[:3]) for k, v in cands.items() if v][:2]
     if not use:
-        return _ite_split(z3, fs, ids, timeout_ms)
+        return None
     cases = [[]]
     for sk, ts in use:
         opts = [[sk == t] for t in ts] + [[sk != t for t in ts]]
@@ -90,7 +94,7 @@ def _eq_split(z3, fs, sks, timeout_ms):
         s.add(*fs)
         s.add(*c)
         if s.check() != z3.unsat:
-            return _ite_split(z3, fs, ids, timeout_ms)
+            return None
     return "%d equality cases on %s" % (len(cases), ", ".join(str(sk) for sk, _ in use))
 
 
